@@ -22,6 +22,13 @@
 struct in_s { struct sbn a, b, m, g; bn_digit_t d; uint16_t bits; uint8_t naf[NAFSZ]; };
 #include "verif_in.h"
 
+#ifdef REPLAY
+static __attribute__((noinline)) void jsf_dirty_stack(void) {
+	volatile uint8_t junk[8192];
+	for (size_t i = 0; i < sizeof(junk); i++) junk[i] = 0xff;
+}
+#endif
+
 static val_t o_gcd(val_t x, val_t y) {
 	for (unsigned i = 0; i < GCD_ITER && y != 0; i++) { val_t t = o_mod(x, y); x = y; y = t; }
 	return (y == 0 ? x : 0);
@@ -225,6 +232,16 @@ void harness(void) {
 	int8_t *arr = (int8_t *)v_buf(IN.naf, NAFSZ);
 	size_t cnt = 777, off = 777;
 	size_t na = bn_calc_bits(&a), nb = bn_calc_bits(&b), need = 2 * ((na > nb ? na : nb) + 1);
+#ifdef KF_JSF_ZERO_STALE	/* known finding: a zero operand is copied without digits and its stale num[0] is read */
+#if DA == 0 || DB == 0
+#error "shape excluded by KF_JSF_ZERO_STALE"
+#endif
+#endif
+#ifdef REPLAY
+	/* bn_calc_jsf keeps its working copies in automatic storage; for a zero operand they stay uninitialised. Under CBMC
+	 * such storage is nondeterministic; the native replay makes it deterministic by dirtying the stack first. */
+	jsf_dirty_stack();
+#endif
 	r = bn_calc_jsf(&a, &b, NAFSZ, arr, &cnt, &off);
 	if (NAFSZ < need) {
 		V_ASSERT(r == EOVERFLOW, "bn_calc_jsf: array shorter than 2*(bits+1) is refused with EOVERFLOW");
